@@ -16,9 +16,13 @@ import (
 )
 
 func vElemOf(v *big.Int) *Element {
-	var b [32]byte
-	new(big.Int).Mod(v, vM).FillBytes(b[:])
-	e, _ := New().FromBytesWithReduce(b)
+	// built directly from the Montgomery limbs of v (v * 2^256 mod p)
+	m := new(big.Int).Mod(new(big.Int).Lsh(new(big.Int).Mod(v, vM), 256), vM)
+	e := New()
+	mask := new(big.Int).SetUint64(^uint64(0))
+	for i := 0; i < 4; i++ {
+		e.E[i] = new(big.Int).And(new(big.Int).Rsh(m, uint(64*i)), mask).Uint64()
+	}
 	return e
 }
 
